@@ -208,7 +208,7 @@ def run_one(seed, tier="quick", variant=None, replay=None):
                 raise Violation("c20.qlog", "not-serialisable:%s" % type(exc).__name__,
                                 "%s: QuicLogger.to_dict()/json.dumps failed: %r" % (ep.name, exc))
             s["extra"]["qlog_bytes"] = s["extra"].get("qlog_bytes", 0) + len(text)
-            n_sent = n_recv = n_drop = 0
+            n_sent = n_recv = n_drop = n_unknown_cid = 0
             for tr in doc.get("traces", []):
                 for ev in tr.get("events", []):
                     if ev.get("name") == "transport:packet_sent":
@@ -217,6 +217,8 @@ def run_one(seed, tier="quick", variant=None, replay=None):
                         n_recv += 1
                     elif ev.get("name") == "transport:packet_dropped":
                         n_drop += 1
+                        if (ev.get("data") or {}).get("trigger") == "unknown_connection_id":
+                            n_unknown_cid += 1
             if ep.conn is None:
                 continue
             s["extra"]["qlog_packet_sent_records"] = s["extra"].get("qlog_packet_sent_records", 0) + n_sent
@@ -231,7 +233,10 @@ def run_one(seed, tier="quick", variant=None, replay=None):
             # every delivered packet leaves exactly one record: received, or dropped (e.g. a late
             # Handshake packet after the keys were discarded)
             # (datagram padding after the last packet also leaves a packet_dropped record, hence >=)
-            if variant == "benign" and n_recv + n_drop < rec.delivered_packets[ep.name]:
+            # (a datagram whose first packet is addressed to a connection ID the endpoint has retired in the
+            # meantime - a late retransmission on a slow path - is dropped as a whole with ONE record: up to two
+            # coalesced packets behind it are not looked at)
+            if variant == "benign" and n_recv + n_drop + 2 * n_unknown_cid < rec.delivered_packets[ep.name]:
                 raise Violation("c20.qlog", "packet-record-count-fault-free",
                                 "%s: fault-free in-order run: qlog has %d packet_received + %d packet_dropped records, "
                                 "%d packets were delivered" % (ep.name, n_recv, n_drop,
